@@ -376,6 +376,9 @@ def run_check(prop, spec, tier, seed, workdir, t0, only_run=None):
             args += [str(a) for a in r.get("args", [])]
             if tier in r.get("tier_args", {}):
                 args += [str(a) for a in r["tier_args"][tier]]
+            if r.get("noise") and sh % 2 == 1:
+                # odd shards: a second thread keeps using the library (own instances + the instance under test)
+                args += ["--noise", "1"]
             tag = "r%d_%s_s%d" % (ri, r["flavour"], sh)
             env = san_env(r["flavour"], libdir, r.get("leaks", False), workdir, tag)
             env.update(r.get("env", {}))
